@@ -104,7 +104,7 @@ structure Case where
   id : String := ""
   clocks : Array ClockDecl := #[]
   cinfo : List (Nat × Rat × Nat × Option Nat) := []
-  ccfg : List (Nat × ClockCfg) := []      -- what `deriveClock` was asked for, per derived clock
+  ccfg : List (Nat × ClockCfg × Option Rat) := []      -- what `deriveClock` was asked for, per derived clock (configuration, multiplier)
   allocLine : List String := []
   rpins : List (Nat × Nat × Rat) := []
   npins : Nat := 0
@@ -173,12 +173,13 @@ def startCase (s : St) : St := Id.run do
     if cs.clockPinSource i != ps then s := s.diff s!"clockPinSource clock={i} model={cs.clockPinSource i} impl={ps}"
     if cs.resetPinSource i != rs then s := s.diff s!"resetPinSource clock={i} model={repr (cs.resetPinSource i)} impl={repr rs}"
   -- derived clocks: attributes = parent's, overridden by what the configuration gives (`deriveDecl`)
-  for (i, cfg) in c.ccfg do
+  for (i, cfg, mul) in c.ccfg do
     let d := cs.get i
     match d.parent with
     | none => s := s.diff s!"ccfg for root clock {i}"
     | some pi =>
-      let e := deriveDecl pi (cs.get pi) d.freqOrMul cfg
+      let e := deriveDecl pi (cs.get pi) (mul.getD 1) cfg   -- `m_parentRelativeMultiplicator = 1` unless given
+      if e.freqOrMul != d.freqOrMul then s := s.propfail s!"kind=derived-clock-attribute attr=multiplier clock={i} parent={pi} expected={showRat e.freqOrMul} reported={showRat d.freqOrMul}"
       let inh := fun (o : Bool) => if o then "given" else "inherited"
       if e.trig != d.trig then s := s.propfail s!"kind=derived-clock-attribute attr=trigger:{inh cfg.trig.isSome} clock={i} parent={pi} parent_trig={trigName (cs.get pi).trig} expected={trigName e.trig} reported={trigName d.trig}"
       if e.rstType != d.rstType then s := s.propfail s!"kind=derived-clock-attribute attr=resetType:{inh cfg.rstType.isSome} clock={i} parent={pi} expected={rstName e.rstType} reported={rstName d.rstType}"
@@ -331,7 +332,7 @@ def handleLine (s : St) (line : String) : St :=
     let cfg : ClockCfg :=
       { name := opt "name", resetName := opt "rname", trig := (opt "trig").map parseTrig, phaseSync := (opt "psync").map (· == "1"),
         rstType := (opt "rst").map parseRst, activeHigh := (opt "act").map (· == "H") }
-    { s with cur := { s.cur with ccfg := s.cur.ccfg ++ [(i.toNat!, cfg)] } }
+    { s with cur := { s.cur with ccfg := s.cur.ccfg ++ [(i.toNat!, cfg, (opt "mul").map parseRat)] } }
   | "cinfo" :: i :: rest =>
     let r := kv rest "rstsrc"
     { s with cur := { s.cur with cinfo := s.cur.cinfo ++ [(i.toNat!, parseRat (kv rest "freq"), (kv rest "pinsrc").toNat!, if r == "-" then none else some r.toNat!)] } }
